@@ -17,6 +17,16 @@ Line protocol for C01 (stateful: a recording is loaded once, then read many time
     select <nsel> <csel>                      -> the same answer format with integers: selectM on the raw array
     read <nsel> <csel> | item1 <sel> | itemt <nsel> <csel> | itemi <i,i,…|-> | rs <first> <last> <csel|none>
                                               -> ok s <bits> | ok v <n> <bits> | ok m <rows> <cols> <bits> | ok none | err <E>
+    gainsm np1 <rangeMaxBits> <maxint> <nSavedChans> <nAp> <nLf> <nSy> <apGain,…|-> <lfGain,…|->   (whole imro table)
+    gainsm np2 <rangeMaxBits> <maxint> <nSavedChans> <nAp> <nLf> <nSy>
+                                              -> ok <float32 bit patterns> | err Unbound     (band, n_chn cut and sync ones
+                                                 decided by the model; also sets the sync trace indices used by rsp / rp)
+    band <nAp> <nLf>                          -> ok ap | ok lf | ok none
+    nsync <ntr> <nsyncEntry>                  -> ok <count> <indices>
+    rsp <first> <last> <csel|none>            -> <data answer> | sync <rows> <bits>      read_samples, both parts (imec)
+    rp <s:…> <csel>                           -> <data answer> | sync <rows> <bits>      read(slice, csel, sync=True)
+    calall <f32|f64> <gainBits>               -> ok <Σ (k+1)·bits(float32(k-32768) ⊗ g) mod 2^64>
+    exact32 <gainBits>                        -> ok <number of int16 samples whose float32 product is exact>
     selectors: i:<int>  n:<int> (NumPy integer)  s:<start|_>:<stop|_>:<step|_>  l:<i,i,…|->
 Parsing and printing only; every computation is a definition of `Model/PySlice.lean` / `Model/Reader.lean`.
 -/
@@ -28,6 +38,7 @@ structure St where
   raw : Array (Array Int) := #[]
   order : Array Nat := #[]
   gains : Array Gain := #[]
+  sidx : List Nat := []
 
 def optInt? (s : String) : Option (Option Int) :=
   if s = "_" then some none else (int? s).map some
@@ -72,6 +83,15 @@ def St.toRec (st : St) : Rec Gain :=
     s2v := fun c => st.gains[c]! }
 
 def St.ready (st : St) : Bool := st.order.size == st.nc && st.gains.size == st.nc && st.raw.size == st.ns
+
+def showPair : Except Err (Out Float32 × List (List Nat)) → String
+  | .error e => showErr e
+  | .ok (d, y) => showOut (.ok d) ++ s!" | sync {y.length} " ++ showList y.flatten
+
+def imecCounts? (n a l y : String) : Option ImecCounts :=
+  match int? n, int? a, int? l, int? y with
+  | some n, some a, some l, some y => some ⟨n, a, l, y⟩
+  | _, _, _, _ => none
 
 def sites? (s : String) : Option (List Site) :=
   if s = "none" then none else
@@ -138,6 +158,52 @@ def step (st : St) (t : List String) : St × String :=
                 ++ List.replicate xa (nidqFactor i2v none)) (1 : Float) dw
       ({ st with gains := (v.map Gain.f64).toArray }, "ok " ++ showF64s v)
     | _, _, _, _, _, _, _, _ => (st, "bad-op")
+  | ["gainsm", "np1", r, mx, n, a, l, y, ga, gl] =>
+    match f64? r, nat? mx, imecCounts? n a l y, natList? ga, natList? gl with
+    | some r, some mx, some m, some ga, some gl =>
+      if ga.length ≠ gl.length then (st, "bad-op") else
+      match s2vNp1 (np1BandFactor (int2volt r mx)) (1 : Float32) (ga.zip gl) m with
+      | none => (st, "err Unbound")
+      | some v => ({ st with gains := (v.map Gain.f32).toArray, sidx := (syncTraceIndices m.nSaved m.nSy).map Int.toNat },
+                   "ok " ++ showF32s v)
+    | _, _, _, _, _ => (st, "bad-op")
+  | ["gainsm", "np2", r, mx, n, a, l, y] =>
+    match f64? r, nat? mx, imecCounts? n a l y with
+    | some r, some mx, some m =>
+      match s2vNp2 (np2Factor (int2volt r mx)) (1 : Float32) m with
+      | none => (st, "err Unbound")
+      | some v => ({ st with gains := (v.map Gain.f32).toArray, sidx := (syncTraceIndices m.nSaved m.nSy).map Int.toNat },
+                   "ok " ++ showF32s v)
+    | _, _, _ => (st, "bad-op")
+  | ["band", a, l] =>
+    match int? a, int? l with
+    | some a, some l => (st, "ok " ++ (match bandOf a l with | some b => b.name | none => "none"))
+    | _, _ => (st, "bad-op")
+  | ["nsync", n, y] =>
+    match int? n, int? y with
+    | some n, some y => (st, s!"ok {nsyncM n y} " ++ showList (syncTraceIndices n y))
+    | _, _ => (st, "bad-op")
+  | ["rsp", a, b, c] =>
+    match int? a, int? b with
+    | some a, some b =>
+      if c ≠ "none" ∧ (sel? c).isNone then (st, "bad-op") else
+      if !st.ready then (st, "bad-state") else
+      (st, showPair (readSamplesPairM castF32 scale st.toRec st.sidx a b (sel? c)))
+    | _, _ => (st, "bad-op")
+  | ["rp", a, b] =>
+    match sel? a, sel? b with
+    | some (.slice s), some b =>
+      if !st.ready then (st, "bad-state") else (st, showPair (readPairM castF32 scale st.toRec st.sidx s b))
+    | _, _ => (st, "bad-op")
+  | ["calall", kind, g] =>
+    match kind, nat? g with
+    | "f32", some g => (st, s!"ok {(calibrateAllSum (.f32 (Float32.ofBits (UInt32.ofNat g)))).toNat}")
+    | "f64", some g => (st, s!"ok {(calibrateAllSum (.f64 (Float.ofBits (UInt64.ofNat g)))).toNat}")
+    | _, _ => (st, "bad-op")
+  | ["exact32", g] =>
+    match nat? g with
+    | some g => (st, s!"ok {calibrateExactCount (Float32.ofBits (UInt32.ofNat g))}")
+    | none => (st, "bad-op")
   | ["read", a, b] =>
     match sel? a, sel? b with
     | some a, some b => if !st.ready then (st, "bad-state") else (st, showOut (readM castF32 scale st.toRec a b))
